@@ -57,7 +57,15 @@ def run(model, res, tier):
         c10._r4({'model': model, 'c': c, 'res': tmp, 'cbs': cbs})
     H.borrow(res, 'R8', 'range corners', corners)
     keys = [(m.name, q) for q in m.functions if '.' not in q]
-    region = c.cg.reachable(keys)
+    # the cell and range callbacks are where the decomposed parts and markers are reported to the host: a cell recalled from an earlier
+    # reference instead of built from this one's label carries the other reference's markers
+    try:
+        from . import c10 as _c10
+        cbs_ = _c10.callbacks(c)
+        keys += [cbs_[k_] for k_ in ('call_cell_value', 'call_range_value') if k_ in cbs_]
+    except AnalysisError:
+        pass
+    region = c.cg.reachable(keys) - set(c.cg.registry_keys)
     purity.check_region(res, c, 'R7', None, region, 'a label helper')
     purity.check_memo(res, c, 'R7', region, 'a label helper')
 
